@@ -152,7 +152,8 @@ func runVector(v *Vector, seed int64, wantTrace bool) VecResult {
 		if args == nil {
 			args = J{}
 		}
-		obs := runAct(e, st, args)
+		obs := runAct(e, st, e.present(st.Act, args, false))
+		e.scribble(st.Act)
 		e.obs = append(e.obs, obs)
 		if msg, bad := obs["infra"]; bad {
 			if hardSoFar() { // a consequence of the failure already recorded for this behaviour, not an infrastructure error
@@ -212,6 +213,20 @@ func runVector(v *Vector, seed int64, wantTrace bool) VecResult {
 					f.Sig += "#" + site
 				}
 				res.Failures = append(res.Failures, f)
+			}
+		}
+		// an absent octet string may reach the library as nil or as an empty non-nil slice: same expectations either way
+		if hasEmptyInput(st.Act, args) && !st.Soft {
+			obs2 := runAct(e, st, e.present(st.Act, args, true))
+			e.scribble(st.Act)
+			for _, k := range keys {
+				if k == "hang" || k == "ivrepeat" || k == "repeat" { // freshness across calls is not a matter of this repetition
+					continue
+				}
+				if !eqJ(obs2[k], exp[k]) && eqJ(obs[k], exp[k]) {
+					res.Failures = append(res.Failures, Failure{Vid: v.ID, Step: i + 1, Act: st.Act, Prop: st.Prop, Key: k, Got: short(obs2[k]), Want: short(exp[k]),
+						Sig: "nil-vs-empty@" + k})
+				}
 			}
 		}
 		if wantTrace {
